@@ -1,3 +1,3 @@
 #!/bin/bash
 # usage: dbgnorm.sh <patch> <property> — shows what remains after normalisation
-cd /tmp/wt-run-1 && git checkout -- . && git clean -fdq && git apply $1 && mkdir -p /tmp/normdump && rm -f /tmp/normdump/* ; MHUBSA_DUMPNORM=/tmp/normdump MHUBSA_DEBUGNORM=1 MHUBSA_REPO=/tmp/wt-run-1 MHUBSA_VERIF=/tmp/trymut-verif-1 /verif/bin/mhubsa.new -property $2 2>&1 | grep "normalised-\|abandon\|does not load" | cut -c1-700; git checkout -- .
+cd /tmp/wt-run-1 && git checkout -- . && git clean -fdq && git apply $1 && mkdir -p /tmp/normdump && rm -f /tmp/normdump/* ; MHUBSA_DUMPNORM=/tmp/normdump MHUBSA_DEBUGNORM=1 MHUBSA_REPO=/tmp/wt-run-1 MHUBSA_VERIF=/tmp/trymut-verif-1 /verif/bin/mhubsa -property $2 2>&1 | grep "normalised-\|abandon\|does not load" | cut -c1-700; git checkout -- .
